@@ -15,20 +15,94 @@ from checklib import Check  # noqa: E402
 
 OPS = {"+": 1, "-": 2, "*": 3, "/": 4, "<<": 5, ">>": 6}
 LIMIT = 1 << 40
+WIDE_LIMIT = 1 << 64
+# 64-bit limits / masks and their neighbours: the values schemas for u64 fields are full of, none of
+# which a double (53 significant bits) holds exactly, plus the 32-bit boundary they are divided by
+WIDE = [(1 << 53) - 1, 1 << 53, (1 << 53) + 1, (1 << 63) - 1, 1 << 63, (1 << 63) + 1, (1 << 64) - 1, (1 << 64) - 2,
+        0xFFFFFFFF00000000, 0x8000000000000001, 0x7FFFFFFFFFFFFFFF, 0x2000000000000000, 0x0123456789ABCDEF,
+        10 ** 18, 10 ** 19, 9007199254740993, (1 << 32) - 1, 1 << 32, (1 << 32) + 1]
+SMALL = [1, 2, 3, 4, 5, 8, 10, 16]
 
 
 class Gen(object):
     """random well-formed expressions whose every division has non-negative operands and a
     non-zero divisor and whose shifts have small non-negative right operands (the property's
-    own restriction); values kept below 2^40 in magnitude.
+    own restriction).
+    mode 'plain'   values kept below 2^40 in magnitude, literals of ordinary 32-bit size
+    mode 'wide'    literals that need more than 53 significant bits (u64 limits / masks, random 54..64-bit
+                   numbers) next to the ordinary ones, values kept below 2^64 in magnitude, shifts up to 63,
+                   divisions frequent and often with a divisor of the dividend's magnitude (small quotients:
+                   array extents, enumerators, discriminators)
+    mode 'shared'  small literals and frequent references to earlier constants: expressions whose TEXT is
+                   meant to be reused under different values of the constants they name
     An expression is a nested tuple: ('num', z, text) | ('name', i) | ('neg', e) | ('bin', op, a, b) | ('par', e)"""
 
-    def __init__(self, rng, literals):
+    def __init__(self, rng, literals, mode='plain'):
         self.rng = rng
         self.literals = literals          # 'text': dec/hex/octal ; 'isar': dec/hex only
+        self.mode = mode
+        self.limit = WIDE_LIMIT if mode == 'wide' else LIMIT
+        self.max_shift = 63 if mode == 'wide' else 12
+        self.p_name = 0.6 if mode == 'shared' else 0.3
+
+    def spell(self, z):
+        """a literal of value z >= 0 in one of the bases the front-end reads"""
+        c = self.rng.random()
+        if c < 0.45:
+            return ('num', z, hex(z) if c < 0.3 else '0x' + ('%X' % z))
+        if c < 0.55 and self.literals == 'text' and z > 0:
+            return ('num', z, '0' + oct(z)[2:])
+        return ('num', z, str(z))
+
+    def wide_literal(self, least=0):
+        r = self.rng
+        c = r.random()
+        if c < 0.5:
+            z = r.choice([w for w in WIDE if w >= least])
+        elif c < 0.85 or least > (1 << 32):
+            z = r.getrandbits(r.randint(54, 64)) | (1 << 53) | 1      # odd, more than 53 significant bits
+        else:
+            z = r.getrandbits(r.randint(33, 53)) | (1 << 32)
+        return self.spell(z)
+
+    def wide_division(self, depth, env):
+        """a division in which an operand needs more than 53 significant bits (the operands are literals, earlier
+        constants of that size, or a sub-expression of that size):
+        'small'     wide / small divisor: the quotient itself is wide
+        'boundary'  dividend = q * b + rem with a wide b, a small q and rem in {0, 1, b / 2, b - 2, b - 1}: the
+                    floor-division boundary cases; the quotient is a plausible array extent / enumerator
+        'near'      divisor of the dividend's own magnitude"""
+        r = self.rng
+        wide_names = [i for i, v in enumerate(env) if v >= (1 << 53)]
+        fam = r.choice(['small', 'boundary', 'boundary', 'near'])
+        if fam == 'boundary':
+            if wide_names and r.random() < 0.4:
+                b = ('name', r.choice(wide_names))
+            else:
+                b = self.spell(r.getrandbits(r.randint(54, 61)) | (1 << 53))
+            vb = self.value(b, env)
+            qmax = min(64, (WIDE_LIMIT - 1) // vb - 1)
+            if qmax < 1:
+                return None
+            a = self.spell(r.randint(1, qmax) * vb + r.choice([0, 1, vb - 1, vb - 1, vb - 2, vb // 2]))
+            return ('bin', '/', a, b)
+        a = self.expr(depth - 1, env) if r.random() < 0.3 else None
+        if a is None or self.value(a, env) < (1 << 53):
+            a = ('name', r.choice(wide_names)) if wide_names and r.random() < 0.5 else self.wide_literal(1 << 53)
+        va = self.value(a, env)
+        if fam == 'small':
+            b = self.spell(r.choice([1, 2, 3, 7, 10, 16, 255, 256, 1000, 65536, 1 << 32]))
+        else:
+            b = self.spell(max(1, (va >> r.randint(0, 6)) + r.choice([0, 0, 1, -1, r.randint(-1000, 1000)])))
+        return ('bin', '/', a, b)
 
     def literal(self):
         r = self.rng
+        if self.mode == 'wide' and r.random() < 0.5:
+            return self.wide_literal()
+        if self.mode == 'shared':
+            z = r.choice(SMALL)
+            return ('num', z, hex(z)) if r.random() < 0.15 else ('num', z, str(z))
         z = r.choice([0, 1, 2, 3, 4, 7, 8, 10, 16, 31, 100, 255, 256, 1000, 65535, 65536, r.randint(0, 5000)])
         c = r.random()
         if c < 0.25:
@@ -61,29 +135,64 @@ class Gen(object):
             return a << b
         return a >> b
 
+    def admissible(self, op, va, vb):
+        if op == '/' and (va < 0 or vb <= 0):
+            return False
+        if op in ('<<', '>>') and (vb < 0 or vb > self.max_shift or va < 0):
+            return False
+        return True
+
+    def checked(self, e, env):
+        """value of e under env, or None when under THIS env a division / shift inside e leaves the
+        property's restriction or an intermediate value reaches the magnitude limit (used to re-read
+        an expression generated for one set of constants under another)"""
+        k = e[0]
+        if k == 'num':
+            return e[1]
+        if k == 'name':
+            return env[e[1]]
+        if k in ('neg', 'par'):
+            v = self.checked(e[1], env)
+            return None if v is None else (-v if k == 'neg' else v)
+        a, b = self.checked(e[2], env), self.checked(e[3], env)
+        if a is None or b is None or not self.admissible(e[1], a, b):
+            return None
+        v = self.value(('bin', e[1], ('num', a, ''), ('num', b, '')), env)
+        return v if abs(v) < self.limit else None
+
     def expr(self, depth, env):
         """tree of *intended* structure (every binary node is explicit); printing decides parens"""
         r = self.rng
         if depth <= 0 or r.random() < 0.25:
-            if env and r.random() < 0.3:
+            if env and r.random() < self.p_name:
                 return ('name', r.randrange(len(env)))
             return self.literal()
         c = r.random()
         if c < 0.12:
             return ('neg', self.expr(depth - 1, env))
         for _ in range(20):
-            op = r.choice(list(OPS))
-            a = self.expr(depth - 1, env)
-            b = self.expr(depth - 1, env)
+            if self.mode == 'wide' and r.random() < 0.45:
+                e = self.wide_division(depth, env)
+                if e is None:
+                    continue
+                op, a, b = e[1:]
+            else:
+                op = r.choice(list(OPS))
+                a = self.expr(depth - 1, env)
+                b = self.expr(depth - 1, env)
             va, vb = self.value(a, env), self.value(b, env)
-            if op == '/' and (va < 0 or vb <= 0):
-                continue
-            if op in ('<<', '>>') and (vb < 0 or vb > 12 or va < 0):
+            if not self.admissible(op, va, vb):
                 continue
             e = ('bin', op, a, b)
-            if abs(self.value(e, env)) < LIMIT:
+            if abs(self.value(e, env)) < self.limit:
                 return e
         return self.literal()
+
+
+def uses_name(e):
+    if e[0] == 'name':
+        return True
+    return any(uses_name(x) for x in e[1:] if isinstance(x, tuple))
 
 
 PREC = {'+': 0, '-': 0, '*': 1, '/': 1, '<<': 2, '>>': 2}     # only used to decide where parentheses are *needed*
@@ -159,11 +268,36 @@ def read_python_constants(outputs, module):
     return json.loads(p.stdout), None
 
 
-def one_unit(rng, route, nconst):
-    """a compilation unit: constants K0..Kn-1 (each may use earlier ones), an enum whose values
-    are expressions, a struct with an array sized by a constant and a union with expression
-    discriminators"""
-    g = Gen(rng, 'text' if route == 'text' else 'isar')
+class Unit(object):
+    """one compilation unit (= one input file): constants K0..Kn-1, each defined by an expression over
+    literals and earlier constants. scenario: 'plain' | 'wide' | 'shared' | 'corpus'"""
+
+    def __init__(self, route, names, vals, texts, toks, scenario):
+        self.route, self.names, self.vals, self.texts, self.toks = route, names, vals, texts, toks
+        self.scenario = scenario
+        self.named = [any(t[0] == 'name' for t in tk) for tk in toks]
+        self.sizes = [i for i, v in enumerate(vals) if 0 < v <= 64]
+        # constants that size arrays: the first one that fits, then expressions that name other constants
+        rest = sorted(self.sizes[1:], key=lambda i: (not self.named[i], i))
+        self.arrs = self.sizes[:1] + rest[:2]
+        # constants whose expression text sizes a member of the model-only struct V (isar route)
+        self.vsizes = [i for i, v in enumerate(vals) if 0 < v <= 4096]
+        # enumerators / discriminators defined by the expression text itself (text route)
+        self.enums = [i for i, v in enumerate(vals) if 0 <= v < 2 ** 32]
+        seen, self.discs = set(), []
+        for i in sorted(self.enums, key=lambda i: (len(toks[i]) <= 1, i)):
+            if vals[i] not in seen and len(self.discs) < 3:
+                seen.add(vals[i])
+                self.discs.append(i)
+        self.discs.sort()
+
+    def sample(self):
+        return {"route": self.route, "scenario": self.scenario, "constants": list(zip(self.names, self.texts, self.vals))}
+
+
+def one_unit(rng, route, nconst, mode='plain'):
+    """a compilation unit: constants K0..Kn-1 (each may use earlier ones)"""
+    g = Gen(rng, 'text' if route == 'text' else 'isar', mode)
     names, vals, texts, toks = [], [], [], []
     for i in range(nconst):
         e = g.expr(rng.choice([1, 2, 2, 3, 4]), vals)
@@ -172,8 +306,117 @@ def one_unit(rng, route, nconst):
         t, tk = render(e, names, rng)
         texts.append(t)
         toks.append(tk)
-    sizes = [i for i, v in enumerate(vals) if 0 < v <= 64]
-    return names, vals, texts, toks, sizes
+    return Unit(route, names, vals, texts, toks, mode)
+
+
+def shared_group(rng, route, nsib):
+    """2..3 compilation units for ONE prophyc process: the same constant names and, from some index on,
+    the very same expression texts, over leading plain-literal constants whose values differ from unit to
+    unit. Every unit is well-formed on its own (the expressions are re-read under each unit's constants and
+    a candidate set of leading values is dropped when a division / shift leaves the property's restriction)"""
+    g = Gen(rng, 'text' if route == 'text' else 'isar', 'shared')
+    nbase = rng.randint(1, 3)
+    base = [rng.randint(1, 12) for _ in range(nbase)]
+    exprs = [('num', z, str(z)) for z in base]
+    vals = list(base)
+    for _ in range(rng.randint(4, 7)):
+        e = g.literal()
+        for _try in range(30):
+            e = g.expr(rng.choice([1, 2, 2, 3]), vals)
+            if uses_name(e) and e[0] != 'name':
+                break
+        exprs.append(e)
+        vals.append(g.value(e, vals))
+    names = ["K%d" % i for i in range(len(exprs))]
+    texts, toks = [], []
+    for e in exprs:
+        t, tk = render(e, names, rng)       # rendered once: the siblings share the text character for character
+        texts.append(t)
+        toks.append(tk)
+    out = [Unit(route, names, vals, texts, toks, 'shared')]
+    bases = [base]
+    for _s in range(nsib - 1):
+        for _try in range(200):
+            b = [rng.randint(1, 12) for _ in range(nbase)]
+            if any(x == y for old in bases for x, y in zip(old, b)):
+                continue                    # every leading constant differs from its namesakes
+            v = list(b)
+            for e in exprs[nbase:]:
+                x = g.checked(e, v)
+                if x is None:
+                    break
+                v.append(x)
+            if len(v) == len(exprs):
+                bases.append(b)
+                out.append(Unit(route, names, v, [str(z) for z in b] + texts[nbase:],
+                                [[('num', z)] for z in b] + toks[nbase:], 'shared'))
+                break
+    return out
+
+
+_TOK = re.compile(r"\s*(0x[0-9a-fA-F]+|\d+|K\d+|<<|>>|[-+*/()])")
+
+
+def tokens_of_text(text):
+    """token list of a corpus expression (names are K<i>)"""
+    toks, pos = [], 0
+    text = text.rstrip()
+    while pos < len(text):
+        m = _TOK.match(text, pos)
+        if not m:
+            raise ValueError("corpus expression not understood: %r" % text)
+        t = m.group(1)
+        pos = m.end()
+        if t[0].isdigit():
+            toks.append(('num', int(t, 16) if t.startswith("0x") else int(t, 8) if len(t) > 1 and t[0] == "0" else int(t)))
+        elif t[0] == "K":
+            toks.append(('name', int(t[1:])))
+        elif t == "(":
+            toks.append(('lp',))
+        elif t == ")":
+            toks.append(('rp',))
+        else:
+            toks.append(('op', OPS[t]))
+    return toks
+
+
+def corpus_groups():
+    """stored inputs: /verif/corpus/C14/*.json = {"route", "siblings": [[[name, text, value], ...], ...]}
+    (siblings are compiled in one prophyc process, in the order given)"""
+    d = os.path.join(os.path.dirname(os.path.abspath(__file__)), "..", "corpus", "C14")
+    out = []
+    for fn in sorted(os.listdir(d)) if os.path.isdir(d) else []:
+        if not fn.endswith(".json"):
+            continue
+        with open(os.path.join(d, fn)) as f:
+            doc = json.load(f)
+        for entry in (doc if isinstance(doc, list) else [doc]):
+            out.append([Unit(entry["route"], [c[0] for c in sib], [c[2] for c in sib], [c[1] for c in sib],
+                             [tokens_of_text(c[1]) for c in sib], 'corpus') for sib in entry["siblings"]])
+    return out
+
+
+def source(ui, u):
+    """(file name, text given to the generators, text given to the model run) of unit ui"""
+    names, vals, texts = u.names, u.vals, u.texts
+    if u.route == "text":
+        src = "".join("const %s = %s;\n" % (n, t) for n, t in zip(names, texts))
+        src += "enum E%d {\n%s\n};\n" % (ui, ",\n".join("    E%d_%d = %s" % (ui, i, names[i]) for i in u.enums) or "    E%d_x = 0" % ui)
+        if u.enums:
+            src += "enum X%d {\n%s\n};\n" % (ui, ",\n".join("    X%d_%d = %s" % (ui, i, texts[i]) for i in u.enums))
+        for i in u.arrs:
+            src += "struct A%d_%d {\n    u8 x[%s];\n    u16 y[%s];\n};\n" % (ui, i, names[i], texts[i])
+        if u.discs:
+            src += "union U%d {\n%s\n};\n" % (ui, "\n".join("    %s: u32 d%d;" % (texts[i], i) for i in u.discs))
+        return "u%d.prophy" % ui, src, src
+    structs = [("A%d_%d" % (ui, i), [("x", "u8", ("fixed", names[i])), ("y", "u16", ("fixed", texts[i]))]) for i in u.arrs]
+    xml = F.to_isar_constants(constants=list(zip(names, texts)), structs=structs)
+    # model run only: every expression text of a moderate positive value also sizes an array, which makes the
+    # model-time evaluator's reading of that text observable (numeric_size); kept out of the generator run
+    # because the generated Python re-evaluates size texts (known finding) and would stop importing
+    v = [("V%d" % ui, [("c%d" % i, "u8", ("fixed", texts[i])) for i in u.vsizes])] if u.vsizes else []
+    mxml = F.to_isar_constants(constants=list(zip(names, texts)), structs=structs + v) if v else xml
+    return "u%d.xml" % ui, xml, mxml
 
 
 def main():
@@ -185,49 +428,67 @@ def main():
     units = []
     for u in range(nunits):
         route = "text" if u % 2 == 0 else "isar"
-        units.append((route,) + one_unit(rng, route, rng.randint(4, 10)))
-    corpus = [("text", ["K0", "K1", "K2"], [4, 17, 3], ["8 / 2", "1 + 2 << 3", "7 / 2"],
-               [[('num', 8), ('op', 4), ('num', 2)], [('num', 1), ('op', 1), ('num', 2), ('op', 5), ('num', 3)],
-                [('num', 7), ('op', 4), ('num', 2)]], [0, 1, 2]),
-              ("isar", ["K0", "K1"], [4, 17], ["8 / 2", "1 + 2 << 3"],
-               [[('num', 8), ('op', 4), ('num', 2)], [('num', 1), ('op', 1), ('num', 2), ('op', 5), ('num', 3)]], [0, 1])]
-    units = corpus + units
+        units.append(one_unit(rng, route, rng.randint(4, 10)))
 
-    def run_unit(args):
-        ui, (route, names, vals, texts, toks, sizes) = args
-        res = {"ui": ui}
-        arr = sizes[0] if sizes else None
-        if route == "text":
-            src = "".join("const %s = %s;\n" % (n, t) for n, t in zip(names, texts))
-            src += "enum E%d {\n%s\n};\n" % (ui, ",\n".join("    E%d_%d = %s" % (ui, i, n) for i, n in enumerate(names) if 0 <= vals[i] < 2 ** 32) or "    E%d_x = 0" % ui)
-            if arr is not None:
-                src += "struct A%d {\n    u8 x[%s];\n    u16 y[%s];\n};\n" % (ui, names[arr], texts[arr])
-            files = {"u%d.prophy" % ui: src}
-            extra = []
-        else:
-            structs = [("A%d" % ui, [("x", "u8", ("fixed", names[arr])), ("y", "u16", ("fixed", texts[arr]))])] if arr is not None else []
-            xml = F.to_isar_constants(constants=list(zip(names, texts)), structs=structs)
-            files = {"u%d.xml" % ui: xml}
-            extra = ["--isar"]
-        res["files"] = files
-        main_file = list(files)[0]
+    def tk(*xs):
+        return [('num', x) if isinstance(x, int) else ('op', OPS[x]) for x in xs]
+
+    corpus = [Unit("text", ["K0", "K1", "K2"], [4, 17, 3], ["8 / 2", "1 + 2 << 3", "7 / 2"],
+                   [tk(8, '/', 2), tk(1, '+', 2, '<<', 3), tk(7, '/', 2)], 'corpus'),
+              Unit("isar", ["K0", "K1"], [4, 17], ["8 / 2", "1 + 2 << 3"], [tk(8, '/', 2), tk(1, '+', 2, '<<', 3)], 'corpus')]
+    units = corpus + units
+    groups = [[ui] for ui in range(len(units))]
+
+    def add_group(us):
+        groups.append(list(range(len(units), len(units) + len(us))))
+        units.extend(us)
+
+    # operands beyond 53 significant bits (u64 limits / masks), both routes
+    for u in range(12 if quick else 120):
+        add_group([one_unit(rng, "text" if u % 2 == 0 else "isar", rng.randint(6, 10), 'wide')])
+    # the same expression texts over different constants, several schemas in one prophyc process
+    # (isar keeps the texts for the model-time evaluator; the text route evaluates while parsing)
+    for u in range(10 if quick else 100):
+        add_group(shared_group(rng, "text" if u % 3 == 2 else "isar", rng.choice([2, 2, 3])))
+    for us in corpus_groups():
+        add_group(us)
+    group_of = {}
+    for gi, uis in enumerate(groups):
+        for ui in uis:
+            group_of[ui] = gi
+
+    def run_group(args):
+        gi, uis = args
+        files, mfiles, mains = {}, {}, []
+        for ui in uis:
+            fn, text, mtext = source(ui, units[ui])
+            files[fn] = text
+            mfiles[fn] = mtext
+            mains.append(fn)
+        extra = ["--isar"] if units[uis[0]].route == "isar" else []
+        res = {"gi": gi, "files": files, "mains": mains, "model_files": mfiles if mfiles != files else None}
         d = common.scratch("c14")
-        F.materialise(files, d)
-        res["model"] = F.model_of([main_file], extra, cwd=d)
-        res["out"] = F.python_outputs(files, [main_file], args_extra=extra)
+        F.materialise(mfiles, d)
+        res["model"] = F.model_of(mains, extra, cwd=d)
+        res["out"] = F.python_outputs(files, mains, args_extra=extra)
+        res["py"] = {}
+        if res["out"]["rc"] == 0:
+            pys = {k: v for k, v in res["out"]["outputs"].items() if k.endswith(".py")}
+            for ui in uis:
+                res["py"][ui] = read_python_constants(pys, "u%d" % ui)
         return res
 
-    results = F.pmap(run_unit, list(enumerate(units)))
+    gresults = F.pmap(run_group, list(enumerate(groups)))
+    results = dict((ui, gresults[group_of[ui]]) for ui in range(len(units)))
     # Coq stage: the language value of every expression under the source's precedence tables
     work = common.scratch("c14coq")
     vf = os.path.join(work, "expr.v")
     lines = []
-    for ui, (route, names, vals, texts, toks, sizes) in enumerate(units):
-        tab = "prec_prophy" if route == "text" else "prec_calc"
-        envs = []
-        for i, tk in enumerate(toks):
-            env = "(fun n => nth_error [%s] n)" % "; ".join("(%d)" % v for v in vals[:i])
-            lines.append("(%d, %d, match eval_tokens %s %s %s with Some z => [z] | None => [] end)" % (ui, i, tab, env, coq_tokens(tk)))
+    for ui, u in enumerate(units):
+        tab = "prec_prophy" if u.route == "text" else "prec_calc"
+        for i, tks in enumerate(u.toks):
+            env = "(fun n => nth_error [%s] n)" % "; ".join("(%d)" % v for v in u.vals[:i])
+            lines.append("(%d, %d, match eval_tokens %s %s %s with Some z => [z] | None => [] end)" % (ui, i, tab, env, coq_tokens(tks)))
     with open(vf, "w") as fh:
         fh.write("From Coq Require Import ZArith List.\nFrom Prophy Require Import Schema Src PcExpr.\nImport ListNotations.\nLocal Open Scope Z_scope.\n")
         fh.write("Eval vm_compute in [\n%s].\n" % ";\n".join(lines))
@@ -235,44 +496,64 @@ def main():
     for ui, i, r in common.coq_eval_file(vf)[0]:
         coq[(ui, i)] = r[0] if r else None
 
-    def vio(name, ui, i, kind, extra):
-        route, names, vals, texts, toks, sizes = units[ui]
-        case = {"kind": kind, "front_end": route, "constant": names[i] if i is not None else None,
+    def sensitive(ui, k):
+        u = units[ui]
+        return coq.get((ui, k)) != c_precedence_value(u.texts[k], u.names[:k], u.vals[:k])
+
+    # not involved in the generated text: what prophyc itself computed (model-time evaluation, layout)
+    OWN = {"reevaluated_text_affected": None,
+           "observed_at": "prophyc's own computed model (numeric sizes / layout); no generated text is involved"}
+
+    def vio(name, ui, i, kind, extra, whole_process=False):
+        u = units[ui]
+        names, vals, texts = u.names, u.vals, u.texts
+        r = results[ui]
+        case = {"kind": kind, "front_end": u.route, "scenario": u.scenario, "constant": names[i] if i is not None else None,
                 "expression": texts[i] if i is not None else None,
                 "language_value": coq.get((ui, i)) if i is not None else None,
                 "c_precedence_value": c_precedence_value(texts[i], names[:i], vals[:i]) if i is not None else None,
-                "files": results[ui]["files"]}
+                "file": r["mains"][groups[r["gi"]].index(ui)], "command_line_files": r["mains"],
+                "files": r["files"]}
+        if r["model_files"] is not None:
+            case["model_run_files"] = r["model_files"]
         case["precedence_sensitive"] = (case["language_value"] != case["c_precedence_value"])
         case["uses_division"] = i is not None and "/" in texts[i]
         # re-evaluated text: a constant is affected when its own text, or the text of a constant it
         # names (transitively), is precedence-sensitive or divides
         tainted = []
         for k in range(len(names)):
-            own = ("/" in texts[k]) or coq.get((ui, k)) != c_precedence_value(texts[k], names[:k], vals[:k])
+            own = ("/" in texts[k]) or sensitive(ui, k)
             refs = [q for q in range(k) if re.search(r"\b%s\b" % names[q], texts[k])]
             tainted.append(own or any(tainted[q] for q in refs))
         case["reevaluated_text_affected"] = bool(i is not None and tainted[i])
-        case["unit_uses_division"] = any("/" in t_ for t_ in texts)
-        case["unit_precedence_sensitive"] = any(
-            coq.get((ui, k)) != c_precedence_value(texts[k], names[:k], vals[:k]) for k in range(len(names)))
+        # a failure of the whole prophyc process concerns every file on its command line
+        scope = groups[r["gi"]] if whole_process else [ui]
+        case["unit_uses_division"] = any("/" in t_ for q in scope for t_ in units[q].texts)
+        case["unit_precedence_sensitive"] = any(sensitive(q, k) for q in scope for k in range(len(units[q].names)))
         case.update(extra)
         chk.violation(name, case)
 
-    for ui, (route, names, vals, texts, toks, sizes) in enumerate(units):
+    failed_groups = set()
+    for ui, u in enumerate(units):
+        route, names, vals, texts, toks = u.route, u.names, u.vals, u.texts, u.toks
         r = results[ui]
         m = r["model"]
         for i in range(len(names)):
             chk.count()
             lv = coq.get((ui, i))
             cv = c_precedence_value(texts[i], names[:i], vals[:i])
-            chk.seen_class((route, tuple(t[1] for t in toks[i] if t[0] == 'op'), lv != cv), len(toks[i]) > 3)
+            chk.seen_class((route, tuple(t[1] for t in toks[i] if t[0] == 'op'), lv != cv) + ((u.scenario,) if u.scenario in ('wide', 'shared') else ()),
+                           len(toks[i]) > 3)
             if lv != vals[i]:
                 # the generator's own arithmetic disagrees with the Coq evaluator under the source's table:
                 # either the precedence table changed or the harness is wrong; never blame the implementation silently
                 vio("gen-%d-%d" % (ui, i), ui, i, "model evaluation under the translated precedence table differs from the intended value "
                     "(precedence table of the source changed?)", {"intended": vals[i]})
         if "error" in m:
-            vio("compile-%d" % ui, ui, None, "prophyc failed on well-formed constant expressions: %s %s" % (m["error"], m.get("message", "")[:200]), {})
+            if ("m", r["gi"]) not in failed_groups:
+                failed_groups.add(("m", r["gi"]))
+                vio("compile-%d" % ui, ui, None, "prophyc failed on well-formed constant expressions: %s %s" % (m["error"], m.get("message", "")[:200]), {},
+                    whole_process=True)
             continue
         nodes = m["files"].get("u%d" % ui, [])
         consts = {n["name"]: n["value"] for n in nodes if n["class"] == "Constant"}
@@ -281,28 +562,61 @@ def main():
             for i, n in enumerate(names):
                 if str(consts.get(n)) != str(coq.get((ui, i))):
                     vio("value-%d-%d" % (ui, i), ui, i, "prophyc evaluates the constant to %r" % (consts.get(n),), {})
+            # enumerators and discriminators defined by the expression text itself
+            enums = {n["name"]: dict((a, b) for a, b in n["members"]) for n in nodes if n["class"] == "Enum"}
+            for i in u.enums:
+                got = enums.get("X%d" % ui, {}).get("X%d_%d" % (ui, i))
+                if str(got) != str(coq.get((ui, i))):
+                    vio("enumerator-%d-%d" % (ui, i), ui, i, "prophyc evaluates the enumerator X%d_%d = %s to %r" % (ui, i, texts[i], got), {})
         # (2) layout: array sizes
-        structs = F.structs_of(m)
-        arr = sizes[0] if sizes else None
-        st = structs.get("A%d" % ui)
-        if arr is not None and st is not None:
-            want = coq.get((ui, arr))
-            got = [mem[6] for mem in st["members"]]
-            if got != [want, want] or st["byte_size"] != want * 3 + (want % 2):
-                vio("layout-%d" % ui, ui, arr, "array extents / struct size computed by prophyc are %s / %s" % (got, st["byte_size"]),
-                    {"expected_extent": want})
+        structs = F.structs_of(m, "u%d" % ui)
+        if route == "text" and u.discs:
+            un = structs.get("U%d" % ui)
+            got = dict((mem[0], mem[2]) for mem in un["members"]) if un else {}
+            for i in u.discs:
+                if str(got.get("d%d" % i)) != str(coq.get((ui, i))):
+                    vio("discriminator-%d-%d" % (ui, i), ui, i, "prophyc evaluates the discriminator %s of U%d.d%d to %r" % (
+                        texts[i], ui, i, got.get("d%d" % i)), {})
+        for arr in u.arrs:
+            st = structs.get("A%d_%d" % (ui, arr))
+            if st is not None:
+                want = coq.get((ui, arr))
+                got = [mem[6] for mem in st["members"]]
+                if got != [want, want] or st["byte_size"] != want * 3 + (want % 2):
+                    vio("layout-%d-%d" % (ui, arr), ui, arr, "array extents / struct size computed by prophyc for { u8 x[%s]; u16 y[%s]; } are %s / %s" % (
+                        names[arr], texts[arr], got, st["byte_size"]), dict(OWN, expected_extent=want))
+        st = structs.get("V%d" % ui)
+        if st is not None:
+            bad = False
+            for mem in st["members"]:
+                i = int(mem[0][1:])
+                if mem[6] != coq.get((ui, i)):
+                    bad = True
+                    vio("modeltime-%d-%d" % (ui, i), ui, i, "the model-time evaluator reads the size expression '%s' as %r" % (texts[i], mem[6]),
+                        dict(OWN, expected_extent=coq.get((ui, i))))
+            want = sum(coq.get((ui, i)) or 0 for i in u.vsizes)
+            if not bad and st["byte_size"] != want:
+                vio("modeltime-size-%d" % ui, ui, None, "struct of u8 arrays sized by the expression texts has computed size %r, expected %r" % (
+                    st["byte_size"], want), dict(OWN))
         # (3) back-ends
         out = r["out"]
         if out["rc"] != 0:
-            vio("gen-fail-%d" % ui, ui, None, "generation failed: %s" % out["stderr"][-200:], {})
+            if ("o", r["gi"]) not in failed_groups:
+                failed_groups.add(("o", r["gi"]))
+                vio("gen-fail-%d" % ui, ui, None, "generation failed: %s" % out["stderr"][-200:], {}, whole_process=True)
             continue
-        pyc, err = read_python_constants({k: v for k, v in out["outputs"].items() if k.endswith(".py")}, "u%d" % ui)
+        pyc, err = r["py"][ui]
         if pyc is None:
             vio("import-%d" % ui, ui, None, "generated Python module does not import: %s" % err, {})
         else:
             for i, n in enumerate(names):
                 if pyc.get(n) != coq.get((ui, i)):
                     vio("python-%d-%d" % (ui, i), ui, i, "generated Python module has %s = %r" % (n, pyc.get(n)), {})
+            if route == "text":
+                for i in u.enums:
+                    n = "X%d_%d" % (ui, i)
+                    if pyc.get(n) != coq.get((ui, i)):
+                        vio("python-enumerator-%d-%d" % (ui, i), ui, i, "generated Python module has %s = %r" % (n, pyc.get(n)), {})
         hpp = out["outputs"].get("u%d.pp.hpp" % ui, "")
         for i, n in enumerate(names):
             mm = re.search(r"enum \{ %s = ([^}]*?) \};" % n, hpp)
@@ -315,15 +629,31 @@ def main():
                     cvv = c_precedence_value(txt.replace("u", ""), names[:i], [coq.get((ui, k)) for k in range(i)])
                     if cvv != coq.get((ui, i)):
                         vio("cpp-%d-%d" % (ui, i), ui, i, "generated C++ re-evaluates the raw expression text '%s' under C precedence (= %s)" % (txt, cvv), {})
+        if route == "text":
+            for what, idx, pat in [("enumerator", u.enums, r"\bX%d_%%d = (\d+)u?\b" % ui), ("discriminator", u.discs, r"\bdiscriminator_d%d = (\d+)u?\b")]:
+                for i in idx:
+                    mm = re.search(pat % i, hpp)
+                    if mm and int(mm.group(1)) != coq.get((ui, i)):
+                        vio("cpp-%s-%d-%d" % (what, ui, i), ui, i, "generated C++ has %s" % mm.group(0), {})
     chk.coverage["rule"] = ("compilation units with 4-10 constants each defined by a random well-formed expression over decimal / hex "
                             "(/ octal for prophy text) literals, + - * / << >>, unary minus, parentheses (needed and redundant) and earlier "
                             "constants; divisions with non-negative operands and non-zero divisors. Prophy text and isar XML routes. "
+                            "Scenarios: 'plain' (32-bit sized literals, values below 2^40); 'wide' (u64 limits / masks and random 54..64-bit "
+                            "literals, divisions frequent and often with small quotients, shifts up to 63, values below 2^64); 'shared' (2-3 "
+                            "schemas given to ONE prophyc process that use the same constant names and character-identical expression texts "
+                            "over leading constants of different values). "
                             "The language value is computed by the Coq evaluator (precedence-climbing parse under the precedence table "
-                            "translated from the source + integer evaluation); compared with: prophyc's model constants, array extents "
-                            "and struct sizes of the computed layout, the integer attributes of the imported generated Python module, "
-                            "the enum constants of the generated C++ header. distinct_nontrivial = distinct (route, operator sequence, "
-                            "precedence-sensitive?) with more than one operator.")
-    chk.sample({"route": units[2][0], "constants": list(zip(units[2][1], units[2][3], units[2][2]))})
+                            "translated from the source + integer evaluation); compared with: prophyc's model constants, enumerators and "
+                            "discriminators written as expressions (text route), array extents and struct sizes of the computed layout "
+                            "(up to three structs per unit; isar route: in the model run every expression text of value 1..4096 sizes an "
+                            "array, so the model-time evaluator's reading of each is observed), the integer attributes of the imported "
+                            "generated Python module, the enum constants / enumerators / discriminators of the generated C++ header. "
+                            "distinct_nontrivial = distinct (route, operator sequence, precedence-sensitive?[, scenario]) with more than one operator.")
+    chk.sample(units[2].sample())
+    for gi in (len(corpus) + nunits, len(corpus) + nunits + (12 if quick else 120)):
+        if gi < len(groups):
+            for ui in groups[gi]:
+                chk.sample(units[ui].sample())
     chk.assumptions += ["PLY's LALR tables are not modelled; that the yacc grammar with its precedence declarations parses as the "
                         "precedence-climbing model does is validated by this differential run only"]
     return chk.finish()
